@@ -110,6 +110,22 @@ impl<'a> Interpreter<'a> {
         }
     }
 
+    /// An interpreter for code that is evaluated on behalf of `parent` - the body of a macro.
+    /// It continues at the parent's call depth, so a reference cycle that passes through a
+    /// macro body ends in the depth error instead of exhausting the stack; every iteration
+    /// starts from that same depth.
+    pub fn nested(
+        parent: &Interpreter,
+        cel: &'a CelContext,
+        bindings: &'a BindContext,
+    ) -> Interpreter<'a> {
+        Interpreter {
+            cel: Some(cel),
+            bindings: Some(bindings),
+            depth: ScopedCounter::starting_at(parent.depth.count()),
+        }
+    }
+
     pub fn empty() -> Interpreter<'a> {
         Interpreter {
             cel: None,
